@@ -37,9 +37,10 @@ noncomputable instance instRealLikeReal : RealLike ℝ where
   eqb x y := decide (x = y)
   pi := Real.pi
 
-/-- literals of model files read as real numbers -/
-@[simp] theorem lit_real (n : ℕ) : (@OfNat.ofNat ℝ n RealLike.Lits.instLit) = (n : ℝ) := rfl
-@[simp] theorem ofNat_real (n : ℕ) : (RealLike.ofNat n : ℝ) = (n : ℝ) := rfl
+/-- literals of model files read as real numbers (not `simp` lemmas: together with `Nat.cast_ofNat` they would loop;
+    use `simp only [lit_real]` followed by `push_cast`) -/
+theorem lit_real (n : ℕ) : (@OfNat.ofNat ℝ n RealLike.Lits.instLit) = (n : ℝ) := rfl
+theorem ofNat_real (n : ℕ) : (RealLike.ofNat n : ℝ) = (n : ℝ) := rfl
 @[simp] theorem sqrt_real (x : ℝ) : RealLike.sqrt x = Real.sqrt x := rfl
 @[simp] theorem sin_real (x : ℝ) : RealLike.sin x = Real.sin x := rfl
 @[simp] theorem cos_real (x : ℝ) : RealLike.cos x = Real.cos x := rfl
